@@ -169,6 +169,30 @@ def inputs(ctx):
                     ins.append({"id": "f%d" % n, "writer": w, "set": {"langs": [{"lang": "en-US", "caps": [
                         {"s": 1000000, "e": 2000000, "layout": LAY[caplay] if caplay else None, "nodes": nodes}]}]}, "opts": {}, "force": ""})
                     n += 1
+    # one writer object, two documents: what the first one left on the writer must not show in the second
+    picks = [c for k, c in enumerate(ctx._cases) if k % 97 == 0][:24]
+    for a in picks[:8]:
+        for b in picks:
+            for w in DW:
+                ins.append({"id": "u%d" % n, "writer": w, "prev": _layout_set(a), "set": _layout_set(b), "opts": {}, "force": ""})
+                n += 1
+    # a language without captions is still a written language; cue timing shapes (same start and
+    # different ends, equal spans that are not consecutive) for the writers that merge
+    for w in DW:
+        for order in (0, 1):
+            langs = [{"lang": "en-US", "caps": [{"s": 1000000, "e": 2000000, "nodes": [["t", "one"]]},
+                                                 {"s": 3000000, "e": 4000000, "nodes": [["t", "two"]]}]},
+                     {"lang": "fr-FR", "caps": []}]
+            if order:
+                langs.reverse()
+            for force in ("", "en-US", "fr-FR"):
+                ins.append({"id": "v%d" % n, "writer": w, "set": {"langs": langs}, "opts": {}, "force": force})
+                n += 1
+        for spans in ([(1, 2), (1, 3)], [(1, 2), (1, 2), (1, 3)], [(1, 3), (1, 2), (1, 2)], [(1, 2), (2, 3), (1, 2)],
+                      [(1, 2), (1, 3), (1, 2)], [(1, 1), (1, 1), (1, 2)], [(0, 0), (0, 0)], [(1, 3), (2, 3), (2, 3)]):
+            caps = [{"s": a * 1000000, "e": b * 1000000, "nodes": [["t", "cue %d" % j]]} for j, (a, b) in enumerate(spans)]
+            ins.append({"id": "v%d" % n, "writer": w, "set": {"langs": [{"lang": "en-US", "caps": caps}]}, "opts": {}, "force": ""})
+            n += 1
     docs = list(corpus.readable_docs())
     for d in docs:
         for w in DW:
@@ -253,6 +277,8 @@ def execute(inp):
     w = inp["writer"]
     try:
         writer = WRITERS[w](**inp["opts"])
+        if "prev" in inp:
+            writer.write(build.caption_set(inp["prev"]))
         out = writer.write(cs, force=inp["force"]) if inp["force"] else writer.write(cs)
     except Exception as e:
         name = type(e).__name__
@@ -269,6 +295,8 @@ def execute(inp):
 
 def signature(inp, rec, clause):
     sig = {"clause": clause.split(" ")[0], "writer": inp["writer"]}
+    if not any(d["ps"] for d in rec.get("divs", [])):
+        sig["no_paragraphs"] = True
     if "pos" in inp:
         sig["pos"] = inp["pos"]
         sig["cls"] = inp["cls"]
